@@ -58,9 +58,11 @@ def run_panel(case, want_targets=None):
     info["sim_seed"] = seed
     Vm = model_solve(mj, P)
     has_ninf = any(y == "-inf" for b in Vm["V"] for y in b["data"])
-    if any(u for u in Vm["undef"]) or (has_ninf and not case.get("allow_ninf")):
+    has_undef = any(u for u in Vm["undef"])
+    if (has_undef or has_ninf) and not case.get("allow_ninf"):
         info["skip"] = "unsupported (-inf value or undefined transition)"
         return info
+    has_ninf = has_ninf or has_undef      # an undefined objective in the model = a continuation value read at a -inf entry
     info["has_ninf"] = has_ninf
     try:
         fns = ImplFns(mj, jit=True)
